@@ -131,8 +131,24 @@ _RE17 = re.compile(r"^((add|sub|mul|div|rem|bitand|bitor|bitxor)_(vv|vr|rv|rr|as
                    r"|sum|sum_ref|product|product_ref|default|cmp_[a-z_]+)$")
 
 
+# type sets of `cast_set!` in harness/src/bin/c16.rs: the c16 bin casts between any two members of one set
+C16_CAST_SETS = list(GROUPS.values()) + [HUGE_GROUP] + [list(p) for p in EXT_THOROUGH]
+
+
+def _cast_bin(src, dst):
+    """the bin that can perform `cast src dst`: c09 inside its grid, else c16 when one `cast_set!` has both types"""
+    if src[1:] in CAST_TYPES and dst[1:] in CAST_TYPES:
+        return "c09"
+    if any(src[1:] in g and dst[1:] in g for g in C16_CAST_SETS):
+        return "c16"
+    return None
+
+
 def ROUTE(line):
     op = line.split(" ", 1)[0]
+    if op == "cast":
+        t = line.split(" ")
+        return _cast_bin(t[1], t[2]) or "c09"
     b = _BIN_OF.get(op)
     if b:
         return b
@@ -595,20 +611,28 @@ def gen(rng, tier):
             for op, rest, t in _huge_requests(rng, s):
                 emit_same(op, s, rest, t, HUGE_GROUP)
     # (ia) the `As` cast between the representations of equal width: the identity on the pattern (also TryFrom,
-    #      and the reinterpreting casts to the other signedness)
-    for W, group in CAST_GROUPS.items():
-        for _ in range(12 if thorough else 4):
+    #      and the reinterpreting casts to the other signedness); bin c09 inside its grid (<= 192 bits), the
+    #      `cast_set!`s of bin c16 for every other member of GROUPS and for 8192 bits
+    sets = {W: list(g) for W, g in GROUPS.items()}
+    for W, g in CAST_GROUPS.items():
+        sets[W] = sorted(set(sets.get(W, []) + g), key=lambda c: wn(c)[0])
+    sets[8192] = HUGE_GROUP
+    for W, group in sets.items():
+        for _ in range((12 if thorough else 4) if W <= 512 else (4 if thorough else 1)):
             for src in group:
                 for dst in group:
                     ws, ns_ = wn(src)
                     t, a = value(rng, ws, ns_)
+                    if W > 512 and rng.random() < 0.7:
+                        # dense digits: every digit position carries information (index arithmetic over > 255 digits)
+                        t, a = "huge", rng.choice(huge_values(rng, src)[:6])
                     for ss in "ui":
                         for ds in "ui":
-                            if src == dst and ss == ds:
+                            if (src == dst and ss == ds) or not _cast_bin(ss + src, ds + dst):
                                 continue
                             i = emit(f"cast {ss}{src} {ds}{dst} {hx(a)}", t)
                             PAIRS.append((i, i, "lit", hx(a)))
-                            if ss == ds:
+                            if ss == ds and src in CAST_TYPES and dst in CAST_TYPES:
                                 i = emit(f"try {ss}{src} {ds}{dst} {hx(a)}", t)
                                 PAIRS.append((i, i, "lit", f"Ok({hx(a)})"))
     # (ii) narrow vs wide
@@ -648,13 +672,21 @@ def gen(rng, tier):
                     i = emit(f"{op} {s}{narrow} {pre}{txt.encode().hex()}", "dec")
                     j = emit(f"{op} {s}{wide} {pre}{txt.encode().hex()}", "dec")
                     PAIRS.append((i, j, "ext", (Wn, Ww, sg)))
-                # the extension itself, performed by the crate (`As` between bnum types): wide pattern = ext(narrow pattern)
-                if narrow in CAST_TYPES and wide in CAST_TYPES:
-                    t, a = value(rng, wn_, nn)
-                    i = emit(f"cast {s}{narrow} {s}{wide} {hx(a)}", t)
-                    PAIRS.append((i, i, "lit", hx(ext(a, Wn, Ww, sg))))
-                    i = emit(f"try {s}{narrow} {s}{wide} {hx(a)}", t)
-                    PAIRS.append((i, i, "lit", f"Ok({hx(ext(a, Wn, Ww, sg))})"))
+                # the extension itself, performed by the crate (`As` between bnum types): wide pattern = ext(narrow pattern);
+                # and back: truncation returns the narrow pattern
+                if _cast_bin(s + narrow, s + wide):
+                    for _k in range(2):
+                        t, a = value(rng, wn_, nn)
+                        i = emit(f"cast {s}{narrow} {s}{wide} {hx(a)}", t)
+                        PAIRS.append((i, i, "lit", hx(ext(a, Wn, Ww, sg))))
+                        i = emit(f"cast {s}{wide} {s}{narrow} {hx(ext(a, Wn, Ww, sg))}", t)
+                        PAIRS.append((i, i, "lit", hx(a)))
+                        o = "iu"[sg]
+                        i = emit(f"cast {s}{narrow} {o}{wide} {hx(a)}", t)       # the SOURCE's signedness decides the extension
+                        PAIRS.append((i, i, "lit", hx(ext(a, Wn, Ww, sg))))
+                    if narrow in CAST_TYPES and wide in CAST_TYPES:
+                        i = emit(f"try {s}{narrow} {s}{wide} {hx(a)}", t)
+                        PAIRS.append((i, i, "lit", f"Ok({hx(ext(a, Wn, Ww, sg))})"))
     # (iii) constants and aliases
     for cfg in ALL_CFGS:
         for s in "ui":
@@ -715,7 +747,7 @@ def post(ctx, lines, R, mo_sp):
 
 def evidence_extra(ctx):
     d = dict(ctx.get("c16_counts", {}))
-    d["alias_table_regenerated_from"] = "/repo/src/types.rs -> lean/Bnum/Generated/Aliases.lean (theorem aliases_ok re-checked by the kernel)"
+    d["alias_table_regenerated_from"] = "/repo/src/types.rs -> lean/Bnum/Generated/Aliases.lean (theorems aliases_ok, and aliases_generated: = the model's table, re-checked by the kernel)"
     return d
 
 
@@ -751,6 +783,12 @@ def pre(ctx):
     rc, out, err = ctx["run"](["lake", "build", "Bnum.Generated.Aliases"], cwd=ctx["lean"], timeout=1800)
     if rc != 0:
         problems.append("generated alias table theorem failed: " + (out + err)[-800:])
+    elif old != lean:
+        # the table changed: theorem `aliases_generated` (Props/C16.lean) ties the MODEL's table (Model/Consts.lean, which the
+        # `alias` requests and the theorems `aliases_*` are about) to the generated one — re-check it in this very run
+        rc, out, err = ctx["run"](["lake", "build", "Bnum.Props.C16"], cwd=ctx["lean"], timeout=3600)
+        if rc != 0:
+            problems.append("the alias table of types.rs changed and no longer equals the model's table (theorem aliases_generated): " + (out + err)[-800:])
     if set(u for _, u, _ in rows) | set(i for _, _, i in rows) != set(ALIASES):
         problems.append("alias set in types.rs differs from the expected U128..U8192 / I128..I8192")
     return problems
